@@ -44,8 +44,9 @@ def o_bar(inp):
     from scoda.exceptions.bar_exception import BarException
     rel = [tuple(m) for m in inp["rel"]]
     n, d, key = inp["n"], inp["d"], inp["key"]
-    if (96 * n) % d != 0:
-        return [("~skip:non-integral-capacity", "")]
+    if d <= 0 or n < 0:
+        return [("~skip:signature-outside-the-domain", "")]
+    exact = (96 * n) % d == 0           # n*4/d quarter notes is a whole number of ticks
     cap = 96 * n // d
     # what the constructor sees after its normalise(): computed independently for signatures
     sigs = []
@@ -77,6 +78,9 @@ def o_bar(inp):
     _, dout = rel_timed(out)
     if dout != cap or not is_int(dout):
         fails.append(("duration", f"bar lasts {dout!r}, expected {cap}"))
+    elif not exact:
+        # the property: "lasts exactly numerator x 4 / denominator quarter notes" — here that is not a whole number of ticks
+        fails.append(("duration-exact", f"bar lasts {dout} ticks, {n}x4/{d} quarter notes are {96 * n}/{d} ticks"))
     ts = [i for i, m in enumerate(out) if m[TY] == TIMESIG]
     if ts != [0] or (out[0][NUM], out[0][DEN]) != (n, d):
         fails.append(("leading-sig", f"time-signature events at indices {ts}"))
@@ -96,9 +100,16 @@ def o_bar(inp):
 def setup(ctx):
     ctx.oracle("bar", o_bar)
 
+    def kf_d28(f):
+        # the signature's bar length is not a whole number of ticks at PPQN 24 (the denominator does not divide 96 * numerator)
+        return f["clause"] == "duration-exact" and (96 * f["input"]["n"]) % f["input"]["d"] != 0
+    ctx.kf_predicates["D28"] = kf_d28
+
 
 def generate(ctx):
     rng = ctx.rng
+    ctx.check("bar", {"rel": [], "n": 1, "d": 128, "key": None})         # D28: a 1/128 bar lasts 0 ticks
+    ctx.check("bar", {"rel": [G.pm(WAIT, 0, 40)], "n": 3, "d": 7, "key": None})
     for i in range(ctx.n(300, 5000)):
         n, d = rng.choice(SIGS)
         cap = 96 * n // d
